@@ -39,7 +39,10 @@ RULE = (
     "shape and rate log-uniform 1e-3..1e2, batch [] or [B] (B 1..4 or = field length; precision and node "
     "heights batched or not). Trees: valid genealogies by construction (2..51 tips, isochronous or serial "
     "sampling on a coarse grid so that ties are common, k >= 2 before every coalescence, random joins, "
-    "internal heights in torchtree's post-order node numbering), batched heights = the same topology with "
+    "internal heights in torchtree's post-order node numbering; the time unit of every tree is drawn: all times "
+    "multiplied by 2**k, k = 0 half of the time, else uniform in -30..20, i.e. 1e-9..1e6 log-uniformly, exact in "
+    "floating point so order and ties are preserved; grids, root heights and height updates are drawn in the "
+    "tree's unit), batched heights = the same topology with "
     "coalescent times scaled by factors >= 1. suffstats / block_update: skyride and skygrid from the "
     "times/events form or a TimeTreeModel, thetas log-uniform 1e-2..1e3, explicit grids with points before "
     "the first coalescence and beyond the root, or a cutoff (regular grid); a grid point never equals a "
@@ -69,6 +72,10 @@ ASSUMPTIONS = [
     "(gradient, curvature, matrix after a precision update); the Metropolis-Hastings ratio itself is C15's; "
     "skygrid is exercised unbatched there (batched skygrid statistics are covered by suffstats)",
     "sampling dates are given as ages (min 0); calendar dates are C02/C06's subject",
+    "time unit of the trees 2**-30..2**20: the oracle is evaluated at the same unit from the same doubles; interval "
+    "lengths are the same floating-point subtractions on both sides and every compared quantity is a sum of terms of "
+    "one sign (or is compared with its conditioning term), so the 1e-9 relative tolerance is unit-free; the "
+    "curvature diagonal ss*exp(-gamma) is compared relative to its own largest entry rather than to 1",
     "histories: ratio-parameterised trees use the documented ratio -> height map (bound + ratio * (parent - bound)), "
     "re-implemented in vt/gen/coal.py and compared with torchtree on 200 trees while building the check; rounds in "
     "which three sorted heights come within 1e-6 of the root height of each other (a smoothing weight that is "
